@@ -4,6 +4,7 @@ import (
 	"fmt"
 	"go/token"
 	"go/types"
+	"os"
 	"regexp"
 	"strings"
 
@@ -368,6 +369,55 @@ func rulePruneGuarded(rule string) RuleFn {
 		for _, p := range prunes {
 			hit, path := an.PathTo(fn, nil, an.IsInstr(p), an.NewGates().AddEdges(gate...))
 			c.Check(len(gate) > 0 && hit == nil, rule, "updateGraph prunes only when some error of the chain is visualisable", "PruneSuccess dominated by len(errs) > 0", "PruneSuccess is reachable although no errVisualizer was found in the chain: Visualize with an error that carries no graph information draws an empty container", p, an.BlockPath(c.P, path))
+			// what stays in the error picture: pruneCtors keeps a constructor only when its own ID is in the set of
+			// failed constructors (the found edge of failed[c.ID]); pruneGroups keeps a group only when its own key is in
+			// the set of failed groups. Any other reason to keep one ("provides the same key as a failed result") lets
+			// constructors that never ran stay in the picture, uncoloured
+			for _, sp := range []struct{ fn, coll, key string }{
+				{"(*dig/internal/dot.Graph).pruneCtors", "Ctors", ".ID]"},
+				{"(*dig/internal/dot.Graph).pruneGroups", "Groups", "nodeKey()]"},
+			} {
+				pf := c.P.Func(sp.fn)
+				if pf == nil {
+					continue
+				}
+				c.See(pf)
+				found := an.BoolEdges(pf, func(v ssa.Value) bool {
+					ex, ok := v.(*ssa.Extract)
+					if !ok || ex.Index != 1 {
+						return false
+					}
+					lk, ok := ex.Tuple.(*ssa.Lookup)
+					if !ok || !lk.CommaOk || an.Norm(lk.X) != "p:failed" {
+						return false
+					}
+					if os.Getenv("VERIF_DEBUG_FACTS") == "x-prune" {
+						fmt.Fprintln(os.Stderr, "x-prune lookup index:", an.Norm(lk.Index))
+					}
+					return strings.HasSuffix(an.Norm(lk.Index)+"]", sp.key)
+				}, true)
+				// the appends that build the kept list
+				var keeps []ssa.Instruction
+				an.Instrs(pf, func(in ssa.Instruction) {
+					if k, ok := in.(*ssa.Call); ok {
+						if b, isB := k.Common().Value.(*ssa.Builtin); isB && b.Name() == "append" && len(k.Common().Args) == 2 {
+							if t, isSl := k.Type().Underlying().(*types.Slice); isSl {
+								if pt, isP := t.Elem().(*types.Pointer); isP && strings.HasSuffix(pt.Elem().String(), "dot."+strings.TrimSuffix(sp.coll, "s")) {
+									keeps = append(keeps, in)
+								}
+							}
+						}
+					}
+				})
+				okKeep := len(found) > 0 && len(keeps) > 0
+				var at ssa.Instruction
+				for _, kp := range keeps {
+					if hit, _ := an.PathTo(pf, nil, an.IsInstr(kp), an.NewGates().AddEdges(found...)); hit != nil {
+						okKeep, at = false, kp
+					}
+				}
+				c.Check(okKeep, rule, sp.fn+" keeps exactly the failed ones", "kept only behind the found edge of failed[own key]", "a constructor (or group) can stay in the error picture although it is not in the set of failed ones: functions that were never called are drawn, uncoloured, next to the failure (another scope's constructor for the same key as a failed result, for one)", at, nil)
+			}
 		}
 	}
 }
